@@ -242,7 +242,8 @@ def explore_c09(spec, res, a):
 
 def explore_c15(spec, res, a):
     n = 1500 if a.tier == "quick" else 40000
-    rc = V.standard_explore(spec, res, a, [("h_coalesce", ["-mode", "events", "-seed", str(res.seed), "-n", str(n)])])
+    rc = V.standard_explore(spec, res, a, [("h_coalesce", ["-mode", "events", "-seed", str(res.seed), "-n", str(n)]),
+                                           ("h_coalesce", ["-mode", "cache", "-seed", str(res.seed), "-n", "400" if a.tier == "quick" else "6000"])])
     rc |= V.race_run(res, "h_coalesce", ["-mode", "race", "-seed", str(res.seed), "-n", "300" if a.tier == "quick" else "20000"])
     return rc
 
@@ -257,7 +258,7 @@ SPECS["C09"] = dict(targets=["Properties/C09.vo"], judge_targets=["Check/ChkNorm
                     rule=COAL_RULE + "; plus ALL 65536 st_mode values on the selected PATH record (exhaustive)",
                     assumptions=["records enter the checker as what AuditMessage.Data()/Tags() returned for them (the parser is covered by C04/C05/C12)",
                                  "the event is observed through its JSON form (all exported fields) plus Event.Warnings"])
-SPECS["C15"] = dict(targets=["Properties/C15.vo"], judge_targets=["Check/ChkCoalesce.vo"], imports="Require Import Bytes Parser ChkCoalesce.", case_type="ecase", judge="judge_c15",
+SPECS["C15"] = dict(targets=["Properties/C15.vo"], judge_targets=["Check/ChkCoalesce.vo"], imports="Require Import Bytes Parser IdCache ChkCache ChkCoalesce.", case_type="ecase", judge="judge_c15",
                     shard=150, explore=explore_c15, rule=COAL_RULE,
                     assumptions=["equality of snapshots / events is computed by the harness with reflect.DeepEqual on canonical dumps",
                                  "data-race freedom is a runtime fact: supported by a race-detector run (16 goroutines, each coalescing and resolving its own events, sharing the package tables and ID caches), not proved"])
